@@ -38,6 +38,44 @@ CHECKS.update({
         note="Trusted base: python ast, PyYAML, fractions.Fraction, the documented schedule semantics, the parameter-loader model for deviation_from resolution.",
     ),
 })
+CHECKS.update({
+    "C06": dict(
+        technique="rule purity lint restricted to parameter arguments + effects/alias summaries over the framework call graph (memoisation, module-level state, provenance of returned objects)",
+        text="A reform can leak into unrelated columns only through shared mutable state or through a rule reaching parameters behind the dependency graph. Decided for all rules and the whole set-up path: no rule writes through a `<group>_params` argument (the same dict object is partialled into every rule of a group) or imports the loader; simulating does not write into the parameter dictionary, function collection or aggregation specs handed in; no loader function is memoised, writes module-level state or returns part of it. Bit-identity of untouched columns is not decided.",
+        ref="DESIGN.md §4 C06, §3.5",
+        note="Unresolvable calls into pandas/numpy/yaml/dags are assumed to return fresh objects and not to write their arguments (counted in the evidence).",
+    ),
+    "C09": dict(
+        technique="shape lint over all rule syntax trees against a probe-guarded reading of the rewriter; kinds / data-dependence from the abstract interpreter; effects analysis of make_vectorizable",
+        text="Every If, and/or and one-argument reduction of every internal rule is classified as translated soundly, failing loudly, or silently wrong under today's rewriter (the classification table is tied to structural probes on vectorization.py and the check refuses to run against a rewriter it has not read). A rule passes only without a silently-wrong shape; rules whose array form fails loudly anyway are exempt. Producing the array form must not write outside fresh objects (no exec in the rule's module, no module-level cache). Correctness of the rewriter on arbitrary programs is not decided.",
+        ref="DESIGN.md §4 C09",
+        note="The shape table is a reading of the rewriter, validated once at design time by running it; translation validation would need execution.",
+    ),
+    "C14": dict(
+        technique="interprocedural effects and alias analysis (flow-sensitive provenance: fresh / part of parameter i / module-level) with bottom-up summaries to a fixed point; purity lint of all rules",
+        text="A result can depend on process history only through state that outlives a call. For the six public entry points the check decides from the source that nothing reachable from a parameter and no module-level binding is written (E1, E2), no mutable result is memoised (E3), generated code is executed in a fresh namespace (E4), no clock/RNG/environment API is called, and all ~400 rules are effect-free. Equality of results with a fresh process is not decided.",
+        ref="DESIGN.md §4 C14, §3.5",
+        note="Unresolvable foreign calls are assumed effect-free on their arguments; reviewed exceptions: policy_info.inner, config.set_array_backend.",
+    ),
+    "C15": dict(
+        technique="level typing on the static DAG of every equivalence interval (constancy-within-group lattice, documented nesting table, assume-guarantee on suffixed rules)",
+        text="For every interval and every reachable scalar rule whose name carries a group suffix g, every non-parameter argument must be provably constant within g: a group aggregate to g or an enclosing unit, a g-level input, a parameter-only rule, or a rule that is itself g-constant. Full under the documented nesting table (bg in fg in hh, wthh in hh, bg in wthh, sn in ehe, eg in fg).",
+        ref="DESIGN.md §4 C15",
+        note="Trusts the static DAG model and the nesting table transcribed from GEP-1/hh_concepts.",
+    ),
+    "C16": dict(
+        technique="abstract interpretation with constant parameters, finite alternatives and a sign domain for denominators; guard-dominance check; atom enumeration of the three priority gates",
+        text="Decides the crash/NaN half of finiteness: every division, floor division or modulo of every rule reachable from the default targets (every interval since 2015) has a denominator that is a non-zero constant, a count, provably positive, or guarded against zero on that path; no arithmetic on an infinite parameter. For the three priority-gated benefits every path returns 0 or exactly the pre-check entitlement. Non-negativity of all targets and the remaining caps are not decided.",
+        ref="DESIGN.md §4 C16",
+        note="No value domains are assumed for inputs; one reviewed denominator (sum of two earnings-point accounts) is listed in the evidence.",
+    ),
+    "C17": dict(
+        technique="exhaustive truth-table enumeration of the boolean atoms of the four paid-amount rules (abstract interpreter in atom mode) + level typing of the part-household split",
+        text="For every interval since 2015: the conditions under which ALG II/Kinderzuschlag, Grundsicherung/ALG II and Grundsicherung/Wohngeld can be non-zero contradict each other on their shared atoms (all 2^k assignments); the flags that zero ALG II, the flags that split the part-household and the sources of the any-aggregates Wohngeld requires are the same columns; the split is constant within a needs unit; Kinderzuschlag is paid only under one of its two covering-need flags, which have the form income + kiz (+ wohngeld) >= need. Grundsicherung vs Kinderzuschlag is not decided.",
+        ref="DESIGN.md §4 C17",
+        note="Trusts the abstract interpreter's folding of tests under a total atom assignment; atoms are the rules' boolean arguments and data-dependent comparisons.",
+    ),
+})
 NOT_APPLICABLE = {
     "C04": "Compares values of two runs under different target sets / debug options; the only structural handle (non-interference of `targets` with node definitions) lives in dict comprehensions keyed by computed strings and in the third-party `dags` package - no necessary condition that is both statically checkable and robust to behaviour-preserving refactoring was found (DESIGN.md §6).",
     "C12": "Whether the row scans in groupings.py compute the partition the unit definitions prescribe, for every pointer graph and row order, is a property of a data-dependent algorithm over runtime values; it needs execution or model checking, not static analysis (DESIGN.md §6). Structural by-products are decided under C15, C17 and C20.",
